@@ -268,7 +268,8 @@ PROPS["C10"] = dict(
 PROPS["C20"] = dict(
     modules=["common", "hdrs", "c03", "c02", "c05", "c20"],
     contracts=["wsgi.ensure_next", "wsgi.NextResponse.from_app", "Headers.__init__", "Headers.__init__[mapping]",
-               "asgi.StreamingResponse.__call__"],
+               "asgi.CachedStream.push", "asgi.CachedStream.push_eof", "asgi.CachedStream.__anext__",
+               "asgi.NextResponse.from_app.send", "asgi.NextResponse.render_stream", "asgi.StreamingResponse.__call__"],
     refute={"quick": [2], "thorough": [1, 2, 3]},
     native="c20",
     level="other",
@@ -280,7 +281,11 @@ PROPS["C20"] = dict(
                "application exactly once, returns only after the application has called start_response - also for a "
                "generator-style application, which does so when it is first advanced -, takes the status code from the status "
                "line and the header mapping from the header list (Headers.__init__, also proved for the mapping-copy branch "
-               "used by MutableHeaders(headers)), and relays the body bytes; Headers.__init__ keeps every header name that occurs once with its value (names occurring several times "
+               "used by MutableHeaders(headers)), and relays the body bytes; on the ASGI side the closure that captures the inner application's messages "
+               "(from_app.<locals>.send) takes, for EVERY message, the status and the header list from a start message and "
+               "appends the body of a body message to the cached stream, closing it exactly when more_body is absent/false; "
+               "CachedStream.push / push_eof / __anext__ keep 'content == everything pushed', and NextResponse.render_stream "
+               "(an iterator-protocol loop with invariant) re-emits exactly the cached bytes; Headers.__init__ keeps every header name that occurs once with its value (names occurring several times "
                "are folded - the known finding); the ASGI StreamingResponse.__call__ that re-emits the relayed body is legal at "
                "every emission (from C05). BOUNDED (labelled): capture of status/headers, CachedStream, decorator/middleware "
                "wrappers and whole identity stacks of depth 0..3 over every response class and raw applications are compared "
@@ -290,8 +295,8 @@ PROPS["C20"] = dict(
                "header names that occur several times (e.g. two Set-Cookie lines) arrive folded into one comma-joined line.",
     technique="deductive verification: relay contract over an abstract (re-)iterable with ghost output bytes, SMT; bounded differential run of identity stacks",
     explanation="proved: ensure_next relay, WSGI from_app capture (status, headers, body, run-once, started-before-return), "
-                "Headers.__init__ (pair list and mapping copy), streaming re-emission legality; bounded: ASGI capture / "
-                "CachedStream, decorator/middleware stacks.",
+                "Headers.__init__ (pair list and mapping copy), streaming re-emission legality; ASGI per-message capture (send closure), CachedStream and its re-emission; bounded: the "
+                "composition over whole message sequences, decorator/middleware stacks.",
 )
 
 PROPS["C16"] = dict(
